@@ -53,7 +53,7 @@ def spin_layer(ctx, h19):
         budget_end = time.time() + ctx.remaining() * (0.5 if thorough else 0.45)
         left = lambda: max(0.0, budget_end - time.time())
         states = trans = 0
-        scfgs = spin.H19 + spin.SMALL[:4] + spin.BIG
+        scfgs = spin.H19 + spin.SMALL[:4] + (spin.BIG if thorough else spin.BIG[:4])      # quick: configurations with <= 2 producers
         with ThreadPoolExecutor(max_workers=8) as ex:
             res = list(ex.map(lambda ic: spin.safety(os.path.join(work, "safety%d" % ic[0]), ic[1], max(20, min(300, left()))), enumerate(scfgs)))
         for cfg, st in zip(scfgs, res):
